@@ -40,7 +40,7 @@ fn engines_for(property: &str) -> Vec<(Box<dyn Engine>, u64, u64)> {
         "C08" => vec![
             (Box::new(ChanInline), 1_000_000, 20_000_000),
             (Box::new(ChanThreads), 100_000, 3_000_000),
-            (Box::new(CallingContexts), 200, 200),
+            (Box::new(CallingContexts), 1200, 6000),
             (Box::new(FileE2e), 30_000, 1_000_000),
             (Box::new(OtlpSim { focus: "C12" }), 15_000, 500_000),
         ],
